@@ -385,6 +385,15 @@ def build_corpus(rng, n_random):
     odd.update([bytes.fromhex(h) for h in ('6400', '640350017f', '64025000', '0500', '0600', '050207' + '00', '0602' + '0700',
                                               '0a0102', 'fd0320' + '00', '64' + '06' + '5001' + '06' + '5001' + '05', 'ff', 'fe', 'fd00')])
     odd.add(pitkit.lp_wrap(None, nack_reason=150))               # Nack header, no fragment
+    # the root name (a Name element without components) and a name that is nothing but an implicit digest: bare, in an
+    # envelope and under a Nack header (seed round 6: the Nack path indexed the last component of an empty name)
+    root_i = bytes.fromhex('050807000a0400000001')
+    dig_i = bytes.fromhex('05280722' + '0120' + '11' * 32 + '0a0400000002')
+    for w in (bytes.fromhex('05020700'), root_i, dig_i, bytes.fromhex('06020700'), bytes.fromhex('0605070015' + '0178')):
+        odd.add(w)
+        odd.add(pitkit.lp_wrap(w, extra=True))
+        odd.add(pitkit.lp_wrap(w, nack_reason=150))
+        odd.add(pitkit.lp_wrap(w, nack_reason=0, extra=True))
     fragc.add(pitkit.lp_wrap(d0, frag=(0, 2)))                     # fragment 0 of 2
     odd.add(pitkit.lp_wrap(d0, nack_reason=150))                 # Nack carrying a Data
     odd.add(pitkit.lp_wrap(b'\x05', extra=True))                 # truncated fragment
